@@ -79,7 +79,7 @@ def run(replay=None):
     else:
         c.model_check("AddressValidation_MC.tla", "AddressValidation_MC.cfg", label="reference server vs every arrival pattern")
         cases = []
-        for s in c.enumerate("Tokens_Env.tla", {"L": 4 if not thorough else 5}):
+        for s in c.enumerate("Tokens_Env.tla", {"L": 4}):
             cases.append(token_case(c.rng, s))
         for _ in range(5000 if not thorough else 50000):
             cases.append(token_walk(c.rng))
